@@ -17,11 +17,11 @@ What is decided (property level):
 * `cut` : no `PANIC`/`HANG`/endless iteration; for FASTQ the records that pass `check()` form a sub-list of the original
           records in the original order.  Differences to the model's parse of the prefix are tagged `drift`.
 * `raw` : arbitrary bytes: only `PANIC`/`HANG`/endless iteration are violations; differences to the model are `drift`
-          (`drift-nonascii` when the input has bytes ≥ 0x80, where the model does not claim to follow Unicode
-          white-space rules).
+          (`drift-nonascii` when the input has bytes ≥ 0x80).
 
-The model the observations are compared with is the list model **with the UTF-8 check** (`parseFastaU`/`parseFastqU`,
-equal to the plain one on valid UTF-8 by `fasta_utf8_model_eq`).  Besides, for every reader configuration
+The model the observations are compared with is the list model **with the UTF-8 check and Unicode white space**
+(`parseFastaU Txt.unicode` / `parseFastqU Txt.unicode`, equal to the plain one on valid UTF-8 without non-ASCII
+white space by `fasta_utf8_model_eq`).  Besides, for every reader configuration
 `<cap>:<mode>:<schedule>` of the case the driver runs the *stateful* mirror (`parseFastaVia`-style: `BufReader` of
 that capacity over the cyclic read schedule, `read_until`, `read_line` + UTF-8 check, `Reader::read`, `Records`) and
 compares (a) its items with the list model (equal by theorem, else `bad-op`) and hence, through the `drift` comparison,
@@ -103,7 +103,7 @@ def ofSFq : SItem FqItem → GItem
 
 /-- the list model with the UTF-8 check -/
 def modelU (fq : Bool) (file : Bytes) : List GItem :=
-  if fq then (parseFastqU file).map ofSFq else (parseFastaU file).map ofSFa
+  if fq then (parseFastqU Txt.unicode file).map ofSFq else (parseFastaU Txt.unicode file).map ofSFa
 
 def validRec (fq : Bool) (g : GRec) : Bool :=
   if fq then decide (ValidFq (toFq g)) else decide (ValidFa (toFa g))
@@ -130,6 +130,11 @@ def stripPrefix (p : String) (s : String) : Option String :=
 
 def isNonAscii (b : Bytes) : Bool := b.any (· ≥ 128)
 
+/-- the byte string contains the encoding of a non-ASCII white-space character -/
+def hasUws : Bytes → Bool
+  | [] => false
+  | b :: r => wsLenU (b :: r) ≥ 2 || hasUws r
+
 def onlyR (ts : List String) : List String := ts.filter (·.startsWith "R:")
 def findTok (p : String) (ts : List String) : Option String := ts.find? (·.startsWith p)
 
@@ -154,10 +159,10 @@ def parseCfgs (s : String) : Option (List Cfg) := parseList parseCfg s '/'
 def runVia (fq : Bool) (g : Cfg) (file : Bytes) : List GItem × Nat :=
   let sched := RbV.BufLines.cyclic g.sched
   if fq then
-    let r := fqDrain g.cap sched (file.length + 1) (RbV.BufLines.init file)
+    let r := fqDrain Txt.unicode g.cap sched (file.length + 1) (RbV.BufLines.init file)
     (r.1.map ofSFq, r.2.k)
   else
-    let r := faDrain g.cap sched (file.length + 1) { rd := RbV.BufLines.init file, line := [] }
+    let r := faDrain Txt.unicode g.cap sched (file.length + 1) { rd := RbV.BufLines.init file, line := [] }
     (r.1.map ofSFa, r.2.rd.k)
 
 /-- std's `read_until` loop against `readLines`: `<reads>:<lens>` -/
@@ -387,7 +392,7 @@ def verdict (toks : List String) (out : String) : String :=
     | some file =>
       let na := isNonAscii file
       let dtag := if na then " drift-nonascii" else " drift"
-      let base := " raw" ++ (if na then " nonascii" else "")
+      let base := " raw" ++ (if na then " nonascii" else "") ++ (if hasUws file then " uws" else "")
       if fmt = "fx" then
         let k := kindName (sniff file)
         let m : List GItem := match sniff file with
